@@ -19,7 +19,7 @@ structure Signer where
   deriving DecidableEq, Repr
 
 inductive SErr
-  | invalidSignature | badClass | limitExceeds | badCsr | unknownKey
+  | invalidSignature | overrideTooLow | badClass | limitExceeds | badCsr | unknownKey
   deriving DecidableEq, Repr
 
 /-- `TrustAnchorObjects::add_issued`: the new certificate replaces and revokes the previous one
@@ -69,10 +69,13 @@ def signAll (resources : List (Child Ã— List Nat)) : Acc â†’ List (CK Ã— Req) â†
 /-- `process_signer_request` (signer.rs:368-514) followed by `apply` of the
 `ProxySignerExchangeDone` event: validate against the associated proxy's ID, work through every
 child request (any failure aborts the whole request), republish, sign the response with the
-signer's own ID key.  The nonce is copied, not checked: the signer keeps no record of nonces. -/
+signer's own ID key.  The nonce is copied, not checked: the signer keeps no record of nonces.
+A forced manifest number is refused unless it exceeds the current number. -/
 def processSignerRequest (s : Signer) (m : Signed ReqBody) (override : Option Nat) :
     Except SErr (Signer Ã— Signed RespBody) :=
   if !(m.validFor s.proxyKey) then .error .invalidSignature else
+  -- a forced number must exceed the current one (fix 109701d8; the pinned tree took it as is)
+  if !(override.all fun v => decide (s.objects.number < v)) then .error .overrideTooLow else
   match signAll m.clear.resources { objects := s.objects, serial := s.nextSerial } m.clear.entries with
   | .error e => .error e
   | .ok a =>
